@@ -45,6 +45,8 @@ func c10(w *core.World, r *core.Report) {
 
 	r.Rule("R10.11", "the database rule is asked about the source database, never about the mapped one", 2)
 	ruleFilterDbOnSourceDb(w, r)
+	r.Rule("R10.15", "a snapshot entry that arrived intact is withheld only when the database, key or slot rule rejected it", 2)
+	ruleWithheldOnlyByFilters(w, r)
 	r.Rule("R10.14", "a configured slot range [left, right] is dropped only when left > right", 2)
 	ruleSlotRangeAccepted(w, r)
 	r.Rule("R10.13", "every snapshot entry that carries a key — continuation chunks of a split value included — carries the source database the filter judges", 1)
@@ -1447,5 +1449,119 @@ func ruleSlotRangeAccepted(w *core.World, r *core.Report) {
 	}
 	if n == 0 {
 		r.Fail("slot-lists/range-accepted", token.NoPos, "the slot list builders were not found")
+	}
+}
+
+// ---------------------------------------------------------------- R10.15 a snapshot entry is withheld by the filters only
+
+// ruleWithheldOnlyByFilters: the converse of R10.1 for the snapshot workers. An
+// entry that arrived intact (no error, not the end marker) and is not replayed
+// must have been rejected by the database, key or slot rule on that path. Any
+// other reason to skip it ("already expired", "looks redundant") withholds a key
+// the configuration lets through — and, in a full sync, leaves the target's old
+// value in place whatever the key-exists policy says.
+func ruleWithheldOnlyByFilters(w *core.World, r *core.Report) {
+	type spec struct {
+		fn      string
+		forward []string
+	}
+	n := 0
+	for _, sp := range []spec{
+		{"(*syncer.RedisOutput).rdbReplay", []string{"(*pkg/rdbrestore.RdbReplay).Replay"}},
+		{"(*syncer.RedisOutput).rdbReplayBisync", []string{"*buildBisyncRdbReplayUnit"}},
+	} {
+		f := fn(w, r, sp.fn)
+		if f == nil {
+			continue
+		}
+		var fw []core.Site
+		for _, g := range reachableFuncs(f) {
+			if g != f && !(core.Transparent != nil && core.Transparent(g)) && g.Parent() == nil {
+				continue
+			}
+			for _, s := range core.SitesNamed(g, false, sp.forward...) {
+				if s.Instr.Parent() == g {
+					fw = append(fw, s)
+				}
+			}
+		}
+		if len(fw) == 0 {
+			continue
+		}
+		at := ssa.Instruction(fw[0].Instr)
+		for depth := 0; depth < 4 && at.Parent() != f; depth++ {
+			cs := callSitesOf(w, at.Parent())
+			if len(cs) == 0 {
+				break
+			}
+			at = cs[0]
+		}
+		head := core.LoopHeadOf(at.Block())
+		if head == nil || at.Parent() != f {
+			r.Undecided(shortName(sp.fn)+"/withheld-only-by-filters", f.Pos(), "the per-entry loop was not found")
+			continue
+		}
+		isFilter := func(v ssa.Value) bool {
+			c, ok := core.Unwrap(v).(*ssa.Call)
+			return ok && core.MatchName(core.ResolveCall(c).Name, "*RedisKeyFilter).FilterDb", "*RedisKeyFilter).FilterKey", "*RedisKeyFilter).FilterSlot")
+		}
+		isEntryChan := func(t types.Type) bool {
+			ch, ok := t.Underlying().(*types.Chan)
+			return ok && strings.HasSuffix(core.TypeName(ch.Elem()), "BinEntry")
+		}
+		bad := ""
+		var pos token.Pos = f.Pos()
+		skips, fwd := 0, 0
+		okEnum := core.EnumPathsN(head, 0, 400000, 1, func(p *core.Path) {
+			if bad != "" || !p.Closed {
+				return // paths that leave the worker (an error, the end marker, cancellation) withhold nothing
+			}
+			got := false
+			for _, in := range p.Instrs {
+				switch x := in.(type) {
+				case *ssa.Select:
+					for _, st := range x.States {
+						if st.Dir == types.RecvOnly && isEntryChan(st.Chan.Type()) {
+							got = true
+						}
+					}
+				case *ssa.UnOp:
+					if x.Op == token.ARROW && isEntryChan(x.X.Type()) {
+						got = true
+					}
+				}
+			}
+			if !got {
+				return
+			}
+			for _, s := range pathSites(p) {
+				if core.MatchName(s.Name, sp.forward...) {
+					fwd++
+					return
+				}
+			}
+			// the iteration took an entry and went on to the next one without replaying it
+			// (the receive's own "channel closed" / other select branches do not come back to the loop head with an entry)
+			if p.Holds(token.EQL, func(v ssa.Value) bool { return fieldNameOfLoad(core.Unwrap(v)) == "Err" }, core.IsNilConst) || true {
+				skips++
+				if !pathAssumed(p, isFilter, true) {
+					bad = "a snapshot entry is taken off the pipe and dropped on a path on which neither the database, the key nor the slot rule rejected it"
+					for _, fct := range p.Conds {
+						if fct.If != nil && fct.If.Pos().IsValid() {
+							pos = fct.If.Pos()
+						}
+					}
+				}
+			}
+		})
+		if !okEnum {
+			r.Undecided(shortName(sp.fn)+"/withheld-only-by-filters", f.Pos(), "too many paths")
+			continue
+		}
+		n++
+		r.Check(bad == "" && fwd > 0, shortName(sp.fn)+"/withheld-only-by-filters", pos, "%s (iterations replaying=%d, skipping=%d)", bad, fwd, skips)
+	}
+	if n == 0 {
+		r.Fail("snapshot-workers/withheld-only-by-filters", token.NoPos, "no snapshot worker found")
 	}
 }
